@@ -594,6 +594,7 @@ namespace hv
     inline void run_staged(Ctx &c, const std::string &name)
     {
         GlobalState carried;
+        live_values().clear();
         int stage = 0;
         for (const std::string gname : {"main", "main2", "main3"})
         {
@@ -627,6 +628,32 @@ namespace hv
                 GraphExecutorValue &ex = *exo;
                 ex.view().run();
                 auto gs = ex.view().graph().global_state();
+                if (const std::string fold = c.opt_str("fold", ""); !fold.empty() && stage == 0)
+                {
+                    // OPT fold=<fq key>@<clive uid>@<shape>: the recovery fold of the "memory" recording (what a component seeds its
+                    // inputs from) at every instant the recorded series ticked, against the value it really had then
+                    const auto parts = split(fold, '@');
+                    const auto &live = live_values()[std::atoll(parts.at(1).c_str())];
+                    with_shape(parts.at(2), [&]<typename S>() {
+                        const auto *schema = schema_descriptor<S>::ts_meta();
+                        for (const auto &[when, value] : live)
+                        {
+                            std::string fs = "<none>";
+                            int same = 0;
+                            try
+                            {
+                                const Value folded = record_replay::recorded_seed_resolver(gs, parts.at(0), schema, when);
+                                same = folded.has_value() && folded.view().equals(value.view()) ? 1 : 0;
+                                if (folded.has_value()) fs = folded.view().to_string();
+                            }
+                            catch (const std::exception &e) { fs = std::string("<err:") + e.what() + ">"; }
+                            std::string ls = value.view().to_string();
+                            for (char &ch : fs) { if (ch == ' ' || ch == '\n' || ch == '\t') ch = '_'; }
+                            for (char &ch : ls) { if (ch == ' ' || ch == '\n' || ch == '\t') ch = '_'; }
+                            Line("FOLD").i(stage).t(when).i(same).s(ls).s(fs);
+                        }
+                    });
+                }
                 for (const auto &key : split(c.opt_str("gsdump", ""), ','))
                 {
                     if (key.empty() || !gs.contains(key)) continue;
